@@ -39,7 +39,11 @@ type peerEnd struct {
 	toPeerW   *io.PipeWriter
 	fromPeerR *io.PipeReader
 	fromPeerW *io.PipeWriter
-	done      chan struct{}
+	// a PROCESS writes its stdout into an OS pipe: the kernel buffers (64 KiB), the process can exit with unread data
+	// in the pipe, and exec.Cmd.Wait closes the parent's read end once the process is gone ("it is incorrect to call
+	// Wait before all reads from the pipe have completed"). The in-memory command keeps exactly that.
+	osR, osW *os.File
+	done     chan struct{}
 }
 
 type typedEcho struct {
@@ -58,8 +62,23 @@ func newPeerEnd(et agent.EdgeType, reqPat, respPat []int) *peerEnd {
 	return p
 }
 
+// newProcessEnd: like newPeerEnd, the peer's output goes through an OS pipe (a process' stdout).
+func newProcessEnd(et agent.EdgeType, reqPat, respPat []int) *peerEnd {
+	p := newPeerEnd(et, reqPat, respPat)
+	r, w, err := os.Pipe()
+	if err != nil {
+		panic(err)
+	}
+	p.osR, p.osW = r, w
+	return p
+}
+
 func (p *peerEnd) start() error {
-	ag := agent.New(&limitReader{r: p.toPeerR, pat: p.reqPat}, p.fromPeerW)
+	var out io.WriteCloser = p.fromPeerW
+	if p.osW != nil {
+		out = p.osW
+	}
+	ag := agent.New(&limitReader{r: p.toPeerR, pat: p.reqPat}, out)
 	h := &typedEcho{et: p.wants}
 	h.a = ag
 	ag.Handler = h
@@ -70,7 +89,12 @@ func (p *peerEnd) start() error {
 	return nil
 }
 
-func (p *peerEnd) serverReads() io.Reader { return &limitReader{r: p.fromPeerR, pat: p.respPat} }
+func (p *peerEnd) serverReads() io.Reader {
+	if p.osR != nil {
+		return &limitReader{r: p.osR, pat: p.respPat}
+	}
+	return &limitReader{r: p.fromPeerR, pat: p.respPat}
+}
 
 // ---- command.Commander / command.Command in memory (for the real UDFProcess) ----
 
@@ -94,7 +118,13 @@ func (c *memCmd) Start() error {
 	go func() { <-c.p.done; c.errW.Close() }() // the process has exited: stderr ends
 	return nil
 }
-func (c *memCmd) Wait() error                        { <-c.p.done; return nil }
+func (c *memCmd) Wait() error {
+	<-c.p.done
+	if c.p.osR != nil {
+		c.p.osR.Close() // exec.Cmd.Wait: closeAfterWait - whatever is still unread in the pipe is gone
+	}
+	return nil
+}
 func (c *memCmd) Stdin(io.Reader)                    {}
 func (c *memCmd) Stdout(io.Writer)                   {}
 func (c *memCmd) Stderr(io.Writer)                   {}
@@ -104,6 +134,9 @@ func (c *memCmd) StderrPipe() (io.Reader, error)     { return c.errR, nil }
 func (c *memCmd) Kill() {
 	c.p.toPeerR.CloseWithError(io.ErrClosedPipe)
 	c.p.fromPeerR.CloseWithError(io.ErrClosedPipe)
+	if c.p.osR != nil {
+		c.p.osR.Close()
+	}
 }
 
 // ---- kapacitor.Socket in memory (for the real UDFSocket) ----
@@ -156,7 +189,7 @@ func (s *echoSvc) Create(name, taskID, nodeID string, d udf.Diagnostic, abortCal
 	}
 	switch name {
 	case "echo":
-		mk := func() *peerEnd { return newPeerEnd(agent.EdgeType_STREAM, s.reqPat, s.respPat) }
+		mk := func() *peerEnd { return newProcessEnd(agent.EdgeType_STREAM, s.reqPat, s.respPat) }
 		return kapacitor.NewUDFProcess(taskID, nodeID, memCommander{mk}, command.Spec{Prog: "echo"}, d, 0, ab), nil
 	case "becho":
 		mk := func() *peerEnd { return newPeerEnd(agent.EdgeType_BATCH, s.reqPat, s.respPat) }
@@ -388,4 +421,72 @@ func models2tags(r *kit.Rand) map[string]string {
 		t["dc"] = kit.Pick(r, []string{"east", "west,1"})
 	}
 	return t
+}
+
+// ---- proc case: the real kapacitor.UDFProcess closed cleanly while the reader of Out() is stalled ----
+//
+//	proc <reqPattern> <respPattern> <n> <k> <stallMs> => <status> ka=0 diag=<d> <messages that left Out()>
+//
+// n points (P|cpu|db|rp|!|0|host=a|v=i<i>|<i>, i = 1..n) are fed into In(); then Close() is called (the owner has stopped
+// writing); the consumer of Out() takes k messages, stalls for stallMs and then takes the rest. Everything the echoing
+// process wrote back must come out, however late the consumer is.
+func procPointToken(i int) string { return fmt.Sprintf("P|cpu|db|rp|!|0|host=a|v=i%d|%d", i, i) }
+
+func runProc(reqPat, respPat string, n, k, stallMs int) string {
+	diag := &nopDiag{}
+	aborted := make(chan struct{})
+	var once sync.Once
+	var feedMu sync.Mutex
+	mk := func() *peerEnd {
+		return newProcessEnd(agent.EdgeType_STREAM, noZeros(parsePattern(reqPat)), noZeros(parsePattern(respPat)))
+	}
+	p := kapacitor.NewUDFProcess("task", "node", memCommander{mk}, command.Spec{Prog: "echo"}, diag, 0, func() {
+		once.Do(func() { close(aborted) })
+		feedMu.Lock()
+		feedMu.Unlock()
+	})
+	if err := p.Open(); err != nil {
+		return "err:open"
+	}
+	if err := p.Init(nil); err != nil {
+		return "err:init"
+	}
+	var outs []string
+	collDone := make(chan struct{})
+	go func() {
+		defer close(collDone)
+		i := 0
+		for m := range p.Out() {
+			outs = append(outs, renderOut(m))
+			i++
+			if i == k {
+				time.Sleep(time.Duration(stallMs) * time.Millisecond)
+			}
+		}
+	}()
+	feedMu.Lock()
+feed:
+	for i := 1; i <= n; i++ {
+		select {
+		case p.In() <- parseInPoint(procPointToken(i)).message():
+		case <-aborted:
+			break feed
+		}
+	}
+	feedMu.Unlock()
+	err := p.Close()
+	<-collDone
+	status := "ok"
+	select {
+	case <-aborted:
+		status = "aborted"
+	default:
+		if err != nil {
+			status = "err"
+		}
+	}
+	diag.mu.Lock()
+	nd := diag.n
+	diag.mu.Unlock()
+	return fmt.Sprintf("%s ka=0 diag=%d %s", status, nd, joinOrEmpty(outs, " "))
 }
